@@ -112,6 +112,19 @@ pub fn run(args: &Args, rep: &mut Report) {
             }
         }
     }
+    for (i, text) in corpus().iter().enumerate() {
+        if (i as u64) % args.of.max(1) != args.worker {
+            continue;
+        }
+        let Ok(ast) = lib_parse(text) else { continue };
+        let hol = if has_holiday_selector(&ast) { HolSpec::Country("FR".into()) } else { HolSpec::None };
+        let mut r = Rng::new(args.seed, 0xc0c0, i as u64);
+        rep.evaluations += 1;
+        match check(text, &ast, &hol, &mut r, 800) {
+            Ok(_) => rep.count("corpus_expressions_compared"),
+            Err(msg) => rep.violation("normalization_changes_meaning", format!("{text:?} [{}] (from the repository's sample/test sources): {msg}", hol.to_string()), json!({"expr": text, "holidays": hol.to_string()}), known::explained_by(&args.known, &ast)),
+        }
+    }
     rep.require("expressions_compared", 20_000);
     rep.require("rules_folded", 1_000);
     rep.require("additional_rule_emitted", 100);
